@@ -198,6 +198,7 @@ func c17DumpFile(path string, limit int) (c *c17Calls) {
 			c17Attrs(c, p, o.Attributes)
 			c17Call(c, "info:"+p, func() (string, error) { return o.Info() })
 			class := -1
+			var dims []uint64
 			c17Call(c, "raw:"+p, func() (string, error) {
 				hdr, err := core.ReadObjectHeader(f.Reader(), o.Address(), f.Superblock())
 				if err != nil {
@@ -206,12 +207,44 @@ func c17DumpFile(path string, limit int) (c *c17Calls) {
 				meta, raw, rerr := core.VerifDatasetRaw(f.Reader(), hdr, f.Superblock())
 				if meta != nil {
 					class = meta.Class
+					dims = meta.Dims
 				}
 				if rerr != nil {
 					return "", rerr
 				}
 				return c17JSON(meta) + " " + c17Bytes(raw, limit), nil
 			})
+			// a hyperslab: the leading half of every dimension (dataset_read_hyperslab.go)
+			c17Call(c, "slice:"+p, func() (string, error) {
+				hdr, err := core.ReadObjectHeader(f.Reader(), o.Address(), f.Superblock())
+				if err != nil {
+					return "", err
+				}
+				info, err := core.ReadDatasetInfo(hdr, f.Superblock())
+				if err != nil {
+					return "", err
+				}
+				d := info.Dataspace.Dimensions
+				if len(d) == 0 {
+					return "scalar", nil
+				}
+				start, count := make([]uint64, len(d)), make([]uint64, len(d))
+				for i, x := range d {
+					count[i] = x / 2
+					if count[i] == 0 {
+						count[i] = 1
+					}
+					if count[i] > 64 {
+						count[i] = 64
+					}
+				}
+				v, err := o.ReadSlice(start, count)
+				if err != nil {
+					return "", err
+				}
+				return renderValue(v), nil
+			})
+			_ = dims
 			c17Call(c, "read:"+p, func() (string, error) {
 				vals, err := o.Read()
 				if err != nil {
